@@ -55,12 +55,13 @@ def vdesc(v):
     return {'__val__': pickle.dumps(v).hex()}
 
 
+NONASCII = 'caf\u00e9 \u4e2d\u6587'
 VALUES = {
     'pickle': [0, 1, -5, 2 ** 70, 'v', 'w w', '', 1.5, -0.0, float('inf'), None, True, (1, 2), [1, [2, 'x']], {'a': (1,)}, b'by', {1: 2}, ((),),
-               [[], {}], {'k': [1.5, None]}, persist_child.sq, {3, 4}, Dyn(7), Dyn(8)],
-    'json': [0, 1, -5, 2 ** 70, 'v', 'w w', '', 1.5, None, True, [1, 2], [1, ['x', None]], {'a': 1, 'b': [2]}, {}, float('inf')],
-    'source': [0, 1, -5, 2 ** 70, 'v', 'w w', '', 1.5, None, True, (1, 2), [1, [2]], {'a': 1}, 'it''s'],
-    'sql': [0, 1, -5, 2 ** 40, 'v', 'w w', '', 1.5, -0.25, None, True, b'by'],
+               [[], {}], {'k': [1.5, None]}, persist_child.sq, {3, 4}, Dyn(7), Dyn(8)] + [NONASCII],
+    'json': [0, 1, -5, 2 ** 70, 'v', 'w w', '', 1.5, None, True, [1, 2], [1, ['x', None]], {'a': 1, 'b': [2]}, {}, float('inf')] + [NONASCII],
+    'source': [0, 1, -5, 2 ** 70, 'v', 'w w', '', 1.5, None, True, (1, 2), [1, [2]], {'a': 1}, 'it''s'] + [NONASCII],
+    'sql': [0, 1, -5, 2 ** 40, 'v', 'w w', '', 1.5, -0.25, None, True, b'by'] + [NONASCII],
 }
 
 
@@ -85,13 +86,14 @@ def gen(tier, idx):
         elif k == 'popkeys': ops.append(['popkeys', [K() for _ in range(r.choice([1, 2]))]])
         elif k == 'dumpk': ops.append(['dumpk', [K() for _ in range(r.choice([1, 2]))]])
         else: ops.append([k])
+    if idx % 3 == 0: ops.append(['setitem', K(), NONASCII])         # (text beyond ASCII is stored in every third case)
     if cached:
         ops.append(['dump'])
         if r.random() < 0.5 and len(values) > 1:
             # an entry the archive already holds gets a new value and only that key is written back: the last word on it
             k0 = K(); v1, v2 = r.sample(values, 2)
             ops += [['setitem', k0, v1], ['dump'], ['setitem', k0, v2], ['dumpk', [k0]]]
-    return dict(kind=kind, codec=codec, opts=opts, cached=cached, bytecode=bytecode), ops
+    return dict(kind=kind, codec=codec, opts=opts, cached=cached, bytecode=bytecode, clocale=(idx // len(CONFIGS)) % 2 == 0), ops
 
 
 def make_decoys(cfg, loc, tmp, ops):
@@ -120,7 +122,7 @@ def run_child(job, tmp, tag, cwd, bytecode, decoy=None):
     env = dict(os.environ, PYTHONPATH=(decoy + os.pathsep if decoy else '') + REPO + os.pathsep + HERE)
     if bytecode: env.pop('PYTHONDONTWRITEBYTECODE', None)
     else: env['PYTHONDONTWRITEBYTECODE'] = '1'
-    if tag == 'r' and len(json.dumps(job.get('cfg'), sort_keys=True, default=repr)) % 2:
+    if tag == 'r' and (job.get('cfg') or {}).get('clocale'):
         # every other reader runs where text files default to ASCII (the C locale, no UTF-8 mode): what the writer stored as text
         # must not depend on the reader's locale
         env.update(LC_ALL='C', LANG='C', PYTHONCOERCECLOCALE='0', PYTHONUTF8='0')
